@@ -10,7 +10,7 @@ def main(argv):
         from . import facts, pp
         F = facts.load(config=_opt(argv, '--config', 'rel'))
         for b in F.find(argv[1]):
-            print(pp.body(b, show_cleanup='--cleanup' in argv))
+            print(pp.body(b, show_cleanup='--cleanup' in argv, brief='--brief' in argv))
             print()
         return 0
     if cmd == 'list':
